@@ -23,6 +23,7 @@ import (
 	"github.com/verily-src/fhirpath-go/fhirpath/patch"
 	"github.com/verily-src/fhirpath-go/fhirpath/system"
 	"github.com/verily-src/fhirpath-go/fhirpath/zzverif/lib"
+	"github.com/verily-src/fhirpath-go/internal/containedresource"
 	"github.com/verily-src/fhirpath-go/internal/fhir"
 	"google.golang.org/protobuf/proto"
 )
@@ -119,12 +120,31 @@ func inputForm(name string, mr1 proto.Message) []fhir.Resource {
 			return &opb.Observation_Component{Value: &opb.Observation_Component_ValueX{Choice: &opb.Observation_Component_ValueX_Quantity{
 				Quantity: &dtpb.Quantity{Value: &dtpb.Decimal{Value: v}, Code: &dtpb.Code{Value: "mg"}, Unit: &dtpb.String{Value: "mg"}}}}}
 		}
-		sq := func(v string) *dtpb.SimpleQuantity { return &dtpb.SimpleQuantity{Value: &dtpb.Decimal{Value: v}, Code: &dtpb.Code{Value: "mg"}} }
+		sq := func(v string) *dtpb.SimpleQuantity {
+			return &dtpb.SimpleQuantity{Value: &dtpb.Decimal{Value: v}, Code: &dtpb.Code{Value: "mg"}}
+		}
 		return []fhir.Resource{&opb.Observation{
 			Value:          &opb.Observation_ValueX{Choice: &opb.Observation_ValueX_Quantity{Quantity: &dtpb.Quantity{Unit: &dtpb.String{Value: "mg"}}}},
 			Component:      []*opb.Observation_Component{q("1e-999999999"), q("1E+999999999"), q("5"), q("-2.5e-2147483647")},
 			ReferenceRange: []*opb.Observation_ReferenceRange{{Low: sq("1e-999999999"), High: sq("9e999999999")}},
 		}}
+	case "mr5-entries", "mr5-entries-reversed":
+		// a Patient and an Organization in ONE collection: backbone elements of one short message name (Patient.Contact,
+		// Organization.Contact) meet in one field node of one compiled expression
+		var rs []fhir.Resource
+		for _, e := range lib.LoadModelResource("MR5").(*bcrpb.Bundle).GetEntry() {
+			if r := containedresource.Unwrap(e.GetResource()); r != nil {
+				rs = append(rs, r)
+			}
+		}
+		if name == "mr5-entries-reversed" {
+			for i, j := 0, len(rs)-1; i < j; i, j = i+1, j-1 {
+				rs[i], rs[j] = rs[j], rs[i]
+			}
+		}
+		return rs
+	case "bundle-mr5":
+		return []fhir.Resource{lib.LoadModelResource("MR5").(fhir.Resource)}
 	case "patient-empty-contained":
 		return []fhir.Resource{&ppb.Patient{Contained: []*anypb.Any{{}, nil, {TypeUrl: "type.googleapis.com/google.fhir.r4.core.ContainedResource"}},
 			Name: []*dtpb.HumanName{nil, {}}}}
